@@ -36,6 +36,11 @@ def run(ck):
         cases.append({"fitter": fitter, "types": types, "sky": ["none", "flat", "tilted-plane"][i % 3], "suffix": rng.choice(["", "", "_a", "_1"]),
                       "N": rng.choice([5, 6, 7, 8, 9]), "renderer": rng.choice(["pixel", "pixel", "fourier", "hybrid"]),
                       "zero_flux": rng.random() < 0.4, "g": [0.25, -1.5, 3.0, 0.0, 64.0][(i + i // 3) % 5], "e": [0.5, 2.0, 0.125, 1.0][(i // 3) % 4], "seed": rng.randint(0, 10**6)})
+    for rend_ in (["fourier"] if quick else ["fourier", "hybrid"]):
+        cases.append({"fitter": "multi", "types": ["sersic", "pointsource"], "sky": "tilted-plane", "suffix": ["", "_a"][ck.seed % 2], "N": 9, "renderer": rend_,
+                      "zero_flux": False, "g": 0.25, "e": 2.0, "seed": rng.randint(0, 10**6)})
+        cases.append({"fitter": "single", "types": ["sersic"], "sky": "tilted-plane", "suffix": "", "N": 8, "renderer": rend_,
+                      "zero_flux": False, "g": 0.25, "e": 2.0, "seed": rng.randint(0, 10**6)})
     ck.log("implementation: %d fitters (x2: with / without sky)" % len(cases))
     import concurrent.futures as cf
     nsh = min(6, vlib.NCPU)
